@@ -38,7 +38,10 @@ def corpus(tier):
         ("char x;\nvoid main() {\n  x = 1; }\n", ["-O0", "--insert-code"], "--insert-code, statement on the last line"),
         ("unsigned char i;\nvoid main() { asm(\"nop\", -1); if (i) i = 1; }\n", ["-O0"], "negative asm size"), ("char a[2 ! 1];\nvoid main() { }\n", ["-O0"], "infix ! in a constant expression"),
         ("char a[4];\nvoid main() { X = a[\"abc\" + 1]; }\n", ["-O0"], "literal plus constant as a subscript"), ("unsigned char x;\nvoid main() { x *= 2; }\n", ["-O0"], "x *= 2"),
-        ("char *p;\nvoid main() { p = @7@; }\n", ["-O0"], "literal marker in the source"), ("#define 123\nvoid main() { }\n", ["-O0"], "#define without a name"))]
+        ("char *p;\nvoid main() { p = @7@; }\n", ["-O0"], "literal marker in the source"), ("#define 123\nvoid main() { }\n", ["-O0"], "#define without a name"),
+        ("char a[4]; void main() { a[++\"s\"] = 1; }\n", ["-O0"], "++ of a literal in a subscript"), ("void a() {}\nvoid (*tab[1])() = {a}\nvoid main() { }\n", ["-O0"], "table of function pointers"),
+        ("NL\nNL\nvoid main() { x = 1; }\n", ["-O0", "-D", "NL=\n\n\n"], "-D value with line breaks, then an error to locate"),
+        ("=== ASSEMBLER BEGIN ===\n; codesize:\n\tNOP\n==== ASSEMBLER END ====\nvoid main() { }\n", ["-O0"], "assembler block with a header line cut short"))]
     # a store needs a place: these used to emit `STA #<arr`, `STA #0` (instructions that do not exist)
     rejected = [{"source": s_, "args": ["-O0"], "expect": {"panic": False, "is_error": True}, "note": n} for s_, n in (
         ("const char arr[2] = {1,2};\nvoid main() { arr = 5; }\n", "assignment to an array"), ("char x;\nvoid main() { &x = 3; }\n", "assignment to an address"),
@@ -67,7 +70,7 @@ def corpus(tier):
 def build(repo):
     u = Unit(NAME, TOOL, PROPS, [],
              assumptions=["BOUNDED: only the listed programs are covered"],
-             bounded=["the program lists of units/u_errs.py: 6 literals with backslashes before a quote, 2 character-constant programs, 7 macro forms, 3 rejected stores, 9 located errors, 3 located errors inside multi-line statements (known finding), 11 inputs that used to panic"])
+             bounded=["the program lists of units/u_errs.py: 6 literals with backslashes before a quote, 2 character-constant programs, 7 macro forms, 3 rejected stores, 9 located errors, 3 located errors inside multi-line statements (known finding), 15 inputs that used to panic or could"])
     u.text[None] = ""
     u.dropped = ["nothing is extracted: the whole compiler runs (vf/probe)"]
     return u
